@@ -481,8 +481,12 @@ def run_matcher_rules(ck, repo, thorough=False):
         ck.bad(R, 'compiled-scope', 'adapter around the compiled matcher not found in the expected (query, scope) -> _cython_get_mapping(query, structure, scope-array) form', file=gm.file)
     # ... and the reference matcher tests the same restriction at both admission sites
     ref = repo.func(f'{ISO}:_get_mapping')
-    tests = [n for n in ast.walk(ref.node) if isinstance(n, ast.Compare) and len(n.ops) == 1 and isinstance(n.ops[0], ast.In) and src(n.comparators[0]) == 'scope']
-    ck.decide(len(tests) >= 2, R, 'reference-scope', len(tests), f'reference matcher tests `in scope` at {len(tests)} admission sites (2 expected: seeds and extensions)', file=ref.file, line=ref.lineno)
+    from .astutil import reach_conditions, enclosing_map
+    pm = enclosing_map(ref.node)
+    sites_ = [n for n in ast.walk(ref.node) if isinstance(n, ast.Call) and src(n.func) == 'stack.append']
+    tests = [s_ for s_ in sites_ if any(isinstance(c, ast.Compare) and len(c.ops) == 1 and isinstance(c.ops[0], ast.In) and src(c.comparators[0]) == 'scope'
+                                        for c in reach_conditions(s_, ref.node, pm))]
+    ck.decide(len(sites_) == 2 and len(tests) == 2, R, 'reference-scope', len(tests), f'reference matcher tests `in scope` at {len(tests)} admission sites (2 expected: seeds and extensions)', file=ref.file, line=ref.lineno)
     # the driver hands every back-end the component-restricted candidate set
     drv0 = repo.func(f'{ISO}:Isomorphism._get_mapping')
     gcalls = [n for n in ast.walk(drv0.node) if isinstance(n, ast.Call) and src(n.func) == 'get_mapping']
